@@ -20,6 +20,7 @@ RULES: Dict[str, str] = {
     'R-SERIAL-NS': 'sa.rules.serial:run_ns',
     'R-LOAD-REAPPLY': 'sa.rules.serial:run_load_reapply',
     'R-STANDALONE-CLOSURE': 'sa.rules.standalone:run',
+    'R-CACHE': 'sa.rules.cache:run',
 }
 
 PROPERTIES: Dict[str, dict] = {}
